@@ -37,7 +37,7 @@ func Specs() []Spec {
 		`{"deny":[{"type":"NULL"},{"class_regexp":"^(CH|HS)$"}]}`,
 		`{"allow":[{"name_regexp":"^(|[-0-9a-z]+\\.)example\\.com\\.$","type":"A"}],"deny":[{"name":"evil.example.com."}],"prefer_allow":true,"default_deny":true}`)
 	add("l4openvpn", "openvpn", true, `{}`, `{"modes":["plain"]}`, `{"modes":["auth"],"group_key":"`+ovpnKey+`","auth_digest":"sha256"}`,
-		`{"modes":["crypt"],"group_key":"`+ovpnKey+`"}`, `{"modes":["crypt2"],"ignore_crypto":true,"ignore_timestamp":true}`, `{"ignore_timestamp":true}`)
+		`{"modes":["crypt"],"group_key":"`+ovpnKey+`"}`, `{"modes":["crypt2"],"ignore_crypto":true,"ignore_timestamp":true}`, `{"ignore_timestamp":true}`, `{"modes":["auth"],"ignore_timestamp":true}`)
 	add("l4winbox", "winbox", false, `{}`, `{"modes":["standard"]}`, `{"modes":["romon"],"username":"toms"}`, `{"username_regexp":"^[a-z]+$"}`)
 	add("l4wireguard", "wireguard", true, `{}`, `{"zero":4294967295}`)
 	add("l4tls", "tls", false, `{}`, `{"sni":["example.com"]}`, `{"alpn":["h2","http/1.1"]}`, `{"sni":["*.example.com"],"alpn":["h2"]}`)
